@@ -116,7 +116,7 @@ AMINO = ["ALA", "ARG", "ASN", "ASP", "CYS", "GLN", "GLU", "GLY", "HIS", "ILE", "
 FFS = ["amber", "charmm", "parse", "peoepb", "swanson", "tyl06"]
 
 
-def table_success(ff, residues, kind):
+def table_success(ff, residues, kind, neutral=False):
     """Run the real pipeline (default options) on complete standard residues:
     every atom parameterised, total charge integral, no exception."""
     from pdb2pqr import main
@@ -138,10 +138,10 @@ def table_success(ff, residues, kind):
             else:
                 lines = fixtures.nucleic_lines(res)
                 idx = None
-            case = {"ff": ff, "residue": res, "position": ["N-terminal", "internal", "C-terminal"][pos] if kind == "amino" else kind}
+            case = {"ff": ff, "residue": res, "position": ["N-terminal", "internal", "C-terminal"][pos] if kind == "amino" else kind, "neutral_termini": neutral}
             try:
-                bm, defn = fixtures.prepared(lines)
-                args = fixtures.Args(ff=ff, pka_method=None, debump=True, opt=True)
+                bm, defn = fixtures.prepared(lines, neutraln=neutral, neutralc=neutral)
+                args = fixtures.Args(ff=ff, pka_method=None, debump=True, opt=True, neutraln=neutral, neutralc=neutral)
                 r = main.non_trivial(args, bm, None, defn, False)
                 miss = [f"{a.residue.name}{a.residue.res_seq}:{a.name}" for a in r["missed_residues"]]
                 if miss:
@@ -169,6 +169,7 @@ def obligations(tier):
     for ff in FFS:
         obs.append(Obligation(f"success-amino-{ff}", table_success, dict(ff=ff, residues=AMINO if tier == "thorough" else AMINO[::3] + ["GLY", "PRO", "HIS"], kind="amino"), kind="table", group="success"))
         obs.append(Obligation(f"success-water-{ff}", table_success, dict(ff=ff, residues=["WAT"], kind="water"), kind="table", group="success"))
+    obs.append(Obligation("success-amino-parse-neutral-termini", table_success, dict(ff="parse", residues=AMINO if tier == "thorough" else AMINO[::3] + ["GLY", "PRO", "HIS"], kind="amino", neutral=True), kind="table", group="success"))
     return obs
 
 
